@@ -1,5 +1,6 @@
 //! C07 — allocation failure is reported as an error and leaves all state intact; overflowing requests are errors;
 //! panicking methods never return normally when memory is refused.
+use crate::check;
 use crate::common::*;
 use bump_scope::alloc::Allocator;
 use bump_scope::settings::BumpAllocatorSettings;
@@ -22,8 +23,8 @@ fn fail_constructors() {
         2 => Bump::<VA, S<1, true>>::try_with_capacity(l).is_ok(),
         _ => Bump::<VA, S<1, true>>::try_new_in(VA).is_ok(),
     };
-    assert!(!r, "C07: a constructor succeeded although the base allocator refuses memory");
-    assert!(grants() == 0 && live_grants() == 0, "C07: a failed constructor holds memory");
+    check!(!r, "C07: a constructor succeeded although the base allocator refuses memory");
+    check!(grants() == 0 && live_grants() == 0, "C07: a failed constructor holds memory");
     kani::cover!(which == 1 && n == usize::MAX, "huge size hint");
     kani::cover!(true, "END: harness ran to completion");
 }
@@ -45,25 +46,25 @@ fn fail_overflow() {
     match which {
         0 => {
             kani::assume(n > (isize::MAX as usize) / 8);
-            assert!(bump.try_alloc_uninit_slice::<u64>(n).is_err(), "C07: overflowing slice allocation succeeded");
+            check!(bump.try_alloc_uninit_slice::<u64>(n).is_err(), "C07: overflowing slice allocation succeeded");
         }
         1 => {
             kani::assume(n > isize::MAX as usize);
-            assert!(bump.try_reserve(n).is_err(), "C07: overflowing reserve succeeded");
+            check!(bump.try_reserve(n).is_err(), "C07: overflowing reserve succeeded");
         }
         2 => {
             kani::assume(n > (isize::MAX as usize) / 4);
-            assert!(BumpVec::<u32, _>::try_with_capacity_in(n, &*bump).is_err(), "C07: overflowing BumpVec capacity succeeded");
+            check!(BumpVec::<u32, _>::try_with_capacity_in(n, &*bump).is_err(), "C07: overflowing BumpVec capacity succeeded");
         }
         _ => {
             kani::assume(n > (isize::MAX as usize) / 2);
             let mut v: BumpVec<u16, _> = BumpVec::new_in(&*bump);
-            assert!(v.try_reserve(n).is_err(), "C07: overflowing BumpVec::try_reserve succeeded");
-            assert!(v.len() == 0, "C07: failed reserve changed the length");
+            check!(v.try_reserve(n).is_err(), "C07: overflowing BumpVec::try_reserve succeeded");
+            check!(v.len() == 0, "C07: failed reserve changed the length");
         }
     }
-    assert!(grants() == 1, "C07: an overflowing request reached the base allocator successfully");
-    assert!(addr(bump.stats().current_chunk().unwrap().bump_position()) == pos0, "C07: an overflowing request moved the bump position");
+    check!(grants() == 1, "C07: an overflowing request reached the base allocator successfully");
+    check!(addr(bump.stats().current_chunk().unwrap().bump_position()) == pos0, "C07: an overflowing request moved the bump position");
     kani::cover!(true, "END: harness ran to completion");
 }
 
@@ -98,12 +99,12 @@ where
         2 => unsafe { bump.grow(a, la, big) }.is_ok(),
         _ => bump.try_reserve(17).is_ok(),
     };
-    assert!(!ok, "C07: a request that needs a new chunk succeeded although the base allocator refuses memory");
-    assert!(calls() == 2, "C07: the failed request did not ask the base allocator exactly once");
-    assert!(bump.stats().count() == 1, "C07: failed chunk creation linked a chunk");
-    assert!(addr(bump.stats().current_chunk().unwrap().bump_position()) == pos0, "C07: failed request moved the bump position");
-    assert!(bump.stats().allocated() == alloc0, "C07: failed request changed the allocated byte count");
-    assert!(unsafe { w1.read(addr(a) + ia) } == va, "C07: failed request disturbed an earlier block");
+    check!(!ok, "C07: a request that needs a new chunk succeeded although the base allocator refuses memory");
+    check!(calls() == 2, "C07: the failed request did not ask the base allocator exactly once");
+    check!(bump.stats().count() == 1, "C07: failed chunk creation linked a chunk");
+    check!(addr(bump.stats().current_chunk().unwrap().bump_position()) == pos0, "C07: failed request moved the bump position");
+    check!(bump.stats().allocated() == alloc0, "C07: failed request changed the allocated byte count");
+    check!(unsafe { w1.read(addr(a) + ia) } == va, "C07: failed request disturbed an earlier block");
     // keeps working
     let small = any_layout(2, 0);
     let fits = bump.stats().remaining() >= 2 + 16; // conservative: anything <= remaining minus padding fits
@@ -112,7 +113,7 @@ where
         kani::cover!(r.is_ok(), "a later request that fits succeeds");
     }
     if let Ok(p) = r {
-        assert!(disjoint(addr(p.cast()), small.size(), addr(a), la.size()), "C07/C01: block after a failure overlaps an earlier block");
+        check!(disjoint(addr(p.cast()), small.size(), addr(a), la.size()), "C07/C01: block after a failure overlaps an earlier block");
     }
     kani::cover!(true, "END: harness ran to completion");
 }
@@ -146,8 +147,8 @@ fn fail_unallocated() {
         1 => bump.try_reserve(l.size()).is_ok(),
         _ => bump.try_alloc_uninit::<u32>().is_ok(),
     };
-    assert!(!ok, "C07: first allocation succeeded although the base allocator refuses memory");
-    assert!(bump.stats().count() == 0, "C07: failed first allocation left a chunk");
+    check!(!ok, "C07: first allocation succeeded although the base allocator refuses memory");
+    check!(bump.stats().count() == 0, "C07: failed first allocation left a chunk");
     // and it recovers once memory is available
     set_budget(1);
     let r = bump.allocate(l);
@@ -168,13 +169,13 @@ fn fail_vec_body<const UP: bool>() {
     let n: usize = kani::any();
     kani::assume(n <= 3);
     if n > 0 {
-        assert!(v.try_push(x[0]).is_ok(), "push within capacity failed");
+        check!(v.try_push(x[0]).is_ok(), "push within capacity failed");
     }
     if n > 1 {
-        assert!(v.try_push(x[1]).is_ok(), "push within capacity failed");
+        check!(v.try_push(x[1]).is_ok(), "push within capacity failed");
     }
     if n > 2 {
-        assert!(v.try_push(x[2]).is_ok(), "push within capacity failed");
+        check!(v.try_push(x[2]).is_ok(), "push within capacity failed");
     }
     let p0 = v.as_ptr() as usize;
     let which: u8 = kani::any();
@@ -193,14 +194,14 @@ fn fail_vec_body<const UP: bool>() {
             }
         }
     };
-    assert!(!ok, "C07: vector growth succeeded although the base allocator refuses memory");
-    assert!(v.len() == n, "C07: failed growth changed the vector's length");
-    assert!(v.as_ptr() as usize == p0, "C07: failed growth moved the vector's buffer");
+    check!(!ok, "C07: vector growth succeeded although the base allocator refuses memory");
+    check!(v.len() == n, "C07: failed growth changed the vector's length");
+    check!(v.as_ptr() as usize == p0, "C07: failed growth moved the vector's buffer");
     if n > 0 {
-        assert!(v[0] == x[0], "C07: failed growth changed the vector's contents");
+        check!(v[0] == x[0], "C07: failed growth changed the vector's contents");
     }
     if n > 2 {
-        assert!(v[2] == x[2], "C07: failed growth changed the vector's contents");
+        check!(v[2] == x[2], "C07: failed growth changed the vector's contents");
     }
     kani::cover!(n == 3 && which == 1, "extend of a three-element vector refused");
     core::mem::forget(v);
